@@ -16,7 +16,7 @@ from . import c05
 
 PROPERTY = "C18"
 HANG_SECONDS = 900.0
-LINE_BUDGET = 3000000000
+LINE_BUDGET = 20000000000
 RULE = ("(roundtrip) the distribution-function grid in any of its layouts, arbitrary 64-bit patterns (incl. -0.0, "
         "denormals, NaN payloads), written with writeH5Dataset on P_save ranks (mpio-emulating h5py front) and read back "
         "with Grid.loadFromFile and with setupFromFile on P_load ranks (same or different process count and layout): the "
